@@ -266,12 +266,24 @@ def replaced_elements_request():
             "heating": [], "cooling": [], "shielding": {}, "rate_mods": {}, "ode_mods": {}, "solver": "cvode", "device": "cpu", "method": "sparse"}
 
 
-def check_fixed_render(res, model, rng):
+def yield_only_request():
+    """as above, plus an ice species with a renamed element that has a photon yield but no binding energy of its own
+    (its binding energy then comes from the built-in table): the two tables do not share their keys"""
     req = replaced_elements_request()
+    req.update(name="yieldonly", elements=req["elements"] + ["SI"], replacement=dict(req["replacement"], SI="Si"),
+               binding={"#CO": 1300.0}, **{"yield": {"#SIO": 0.0055, "#MG": 0.25}})
+    return req
+
+
+UCL_EXTRA = ["SIO,FREEZE,NAN,#SIO,NAN,NAN,NAN,1.0,0.0,0.0,0,0", "#SIO,DEUVCR,NAN,SIO,NAN,NAN,NAN,1.0,0.0,0.0,0,0", "SI,O,NAN,SIO,NAN,NAN,NAN,1.0e-10,0.0,0.0,10,41000"]
+
+
+def check_fixed_render(res, model, rng, req=None, lines=None):
+    req = req or replaced_elements_request()
     d = ol.scratch_dir()
     o, rms, oms = opt_strings(req, rng)
     case = {"kind": "c20-fixed-render", "options": o}
-    (d / req["files"][0]).write_text("\n".join(UCL_LINES) + "\n")
+    (d / req["files"][0]).write_text("\n".join(lines or UCL_LINES) + "\n")
     rc, out, err = run_init(d, o, rms, oms)
     if rc != 0:
         res.violation("oracle", f"`naunet init` rejects the cloud-like request: {err.strip().splitlines()[-1][:300] if err.strip() else rc}", case)
@@ -282,7 +294,7 @@ def check_fixed_render(res, model, rng):
                 res.violation("oracle", f"requested {name} {b!r} but the configuration file holds {a!r}", case)
                 break
         check_render(res, d, req, "uclchem", case)
-    res.case(("c20", "cloudlike"), nontrivial=True)
+    res.case(("c20", req["name"]), nontrivial=True)
     ol.cleanup_scratch()
 
 
@@ -320,6 +332,7 @@ def run(res, info):
         req, fmt = gen_request(rng)
         check_request(res, model, req, fmt, rng, i, render=i < nr)
     check_fixed_render(res, model, rng)
+    check_fixed_render(res, model, rng, yield_only_request(), UCL_LINES + UCL_EXTRA)
     findings(res, model)
     if model:
         model.close()
